@@ -295,7 +295,13 @@ EvYield == IsEv /\ X.e = "yield" /\
   Go([st EXCEPT !.c = Ev(X.v), !.k = Push(st.k, [f |-> "yieldk", env |-> st.e])])
 EvTry == IsEv /\ X.e = "try" /\      \* try body catch E in { E has X => h } always fin
   Go([st EXCEPT !.c = Ev(X.body), !.k = Push(st.k, [f |-> "try", hs |-> X.hs, fin |-> X.fin, env |-> st.e])])
-EvError == IsEv /\ X.e = "error" /\ Go([st EXCEPT !.status = "halt"])
+(* error "msg": the message goes to the output, then the run-time system reports the       *)
+(* unhandled RuntimeError and the program ends with a failure status (observed identically *)
+(* on both routes and documented in the User Guide; the interpreter's additional stack     *)
+(* listing is a diagnostic and not part of the output)                                     *)
+HaltText == "Unhandled Exception: RuntimeError(??)\n(Aldor error) Halt\n"
+EvError == IsEv /\ X.e = "error" /\
+  Go([st EXCEPT !.o = st.o \o <<X.msg, "\n", HaltText>>, !.status = "halt"])
 
 (* a value arrives at an operand frame: next operand, or apply              *)
 RetArgsNext == IsVal /\ HasF /\ F.f = "args" /\ F.todo # {} /\
